@@ -260,7 +260,8 @@ class Cons:
             if keep_bounds and bounds is not None and abs(a) == 1 and len(rest.terms) >= 2:
                 sol = (-rest) if a == 1 else rest       # var == sol
                 lo, hi = bounds
-                if lo is not None and lo > -(1 << 62) and (lo != 0 or keep_bounds == "all"):
+                diff = len(sol.terms) == 2 and sorted(sol.terms.values()) == [-1, 1]     # var == x - y: var >= 0 is the ordering fact y <= x
+                if lo is not None and lo > -(1 << 62) and (lo != 0 or keep_bounds == "all" or diff):
                     self.le.add(normalize(LinForm.constant(lo) - sol, "le"))
                 if hi is not None and hi < (1 << 62):
                     self.le.add(normalize(sol - hi, "le"))
